@@ -19,7 +19,7 @@ use crate::errors;
 use pyo3::prelude::*;
 use pyo3::types::{PyBytes, PyList, PyString, PyTuple, PyType};
 use std::fs::{File, OpenOptions};
-use std::io::BufWriter;
+use std::io::{BufWriter, Write};
 use std::path::Path;
 use sudachi::analysis::stateless_tokenizer::DictionaryAccess;
 use sudachi::config::Config;
@@ -83,6 +83,8 @@ fn build_system_dic<'p>(
     let mut buf_writer = BufWriter::new(out_file);
     errors::wrap(builder.resolve())?;
     errors::wrap(builder.compile(&mut buf_writer))?;
+    // the tail of the dictionary is still in the buffer: a write error here must not be lost in Drop
+    errors::wrap(buf_writer.flush())?;
 
     to_stats(py, builder)
 }
@@ -123,6 +125,8 @@ fn build_user_dic<'p>(
     let mut buf_writer = BufWriter::new(out_file);
     errors::wrap(builder.resolve())?;
     errors::wrap(builder.compile(&mut buf_writer))?;
+    // the tail of the dictionary is still in the buffer: a write error here must not be lost in Drop
+    errors::wrap(buf_writer.flush())?;
 
     to_stats(py, builder)
 }
